@@ -30,7 +30,7 @@ LEAN_MODULES = ["LunaVerif.Props.C20", "LunaVerif.Lemmas.C20CycAbs", "LunaVerif.
                 "LunaVerif.Lemmas.C20CycRefine", "LunaVerif.Lemmas.C20CycMain", "LunaVerif.Lemmas.C20CycEvent",
                 # envOk discharged: slot contract, contract => envOk, endpoint models keep it, closed device
                 "LunaVerif.Lemmas.C20Contract", "LunaVerif.Lemmas.C20EnvOk", "LunaVerif.Lemmas.C20Endpoints",
-                "LunaVerif.Lemmas.C20Device"]
+                "LunaVerif.Lemmas.C20Device", "LunaVerif.Lemmas.C20Control"]
 DRIVER = "Driver/C20.lean"
 REQUIRED_THEOREMS = ["mux_single_source", "generator_idle_unless_stream_valid", "handshake_idle_unless_requested",
                      "every_response_is_handshake_or_crc_valid_data", "response_only_after_addressed_token_or_data",
@@ -43,7 +43,9 @@ REQUIRED_THEOREMS = ["mux_single_source", "generator_idle_unless_stream_valid", 
                      "inxfer_requests_only_after_pulse", "inxfer_no_handshake_and_data_together",
                      "signalin_requests_only_after_pulse", "streamout_requests_only_after_pulse",
                      "good_step", "envOk_of_endpoints", "closed_tx_never_during_rx", "closed_transmitters_exclusive",
-                     "closed_tx_only_in_response_window"]
+                     "closed_tx_only_in_response_window",
+                     # control endpoint (C07 cycle model), one-cycle lemmas
+                     "ctrl_requests_only_after_pulse", "ctrl_no_handshake_and_data_together"]
 RULE = ("cases = 'mux' (number of inputs x random valid/data patterns, one-hot and overlapping) and 'full' (descriptor set, "
         "endpoint set {bulk IN, bulk OUT, status}, extra handlers) x adaptive LegalHost script (control transfers, bulk IN "
         "with lost/corrupted handshakes and retries, bulk OUT with retransmissions / overflow / PING, status polls, "
@@ -80,12 +82,17 @@ PARTIAL = ("Proved: the transaction-level theorems for every state and event of 
            "closed device as the 'rest slot', an arbitrary driver ASSUMED to keep the same slot contract (restHolds: request "
            "only at / at most L+1 cycles after a ready_for_response pulse not addressed to the three modelled endpoints, one "
            "per pulse, never handshake + data, tx.valid held until last is taken, first/last only with valid, timer.start only "
-           "in the cycle after a reception) and the reset sequencer is assumed silent; for the control endpoint this is still "
-           "checked on every co-simulated cycle through envOk only (its cycle model C07 abstracts the setup decoder, descriptor "
-           "handler and serializer as inputs, so the contract would need those three models composed in; the control "
-           "endpoint also does NOT keep the contract for arbitrary inputs - a new SETUP in mid-transmission cuts its stream - "
-           "so its proof needs the packet layer's 'no reception while answering' fed back); the closed-loop WIRING of the "
-           "endpoint models (Lemmas/C20Device.lean, read off stream.py/status.py/endpoint.py) is not itself co-simulated - each "
+           "in the cycle after a reception) and the reset sequencer is assumed silent; this assumption is EVALUATED by the Lean "
+           "driver on the real control endpoint's EndpointInterface outputs in every co-simulated cycle (slot contract columns "
+           "of the 'cyc' cases, expected 1; the same columns re-check the three proved endpoints on the real gateware and tie "
+           "the pulse decode of Lemmas/C20Device.lean to it), not proved: its cycle model C07 abstracts the setup decoder, "
+           "descriptor handler and serializer as inputs (ctrl_requests_only_after_pulse / ctrl_no_handshake_and_data_together "
+           "cover the control FSM + request handlers for one cycle: every request is caused by a pulse for the endpoint in that "
+           "cycle or passed through from one of the three submodules), so the contract would need those three models composed "
+           "in; the control endpoint also does NOT keep the contract for arbitrary inputs - a new SETUP in mid-transmission "
+           "cuts its stream - so its proof needs the packet layer's 'no reception while answering' fed back; the closed-loop "
+           "WIRING of the endpoint models (Lemmas/C20Device.lean, read off stream.py/status.py/endpoint.py) is not itself "
+           "co-simulated as a whole - each "
            "endpoint model and the packet layer are, separately; (b) the refinement from cycles to events beyond the "
            "handshake-response case (handshake_response_wire: a handshake request yields exactly the wire image of the "
            "event-level Resp.hs); data responses and the endpoints' choice of the handshake are tied by the event-level "
@@ -236,7 +243,10 @@ def run_cyc(desc):
         if o[10]:
             tags.add("cyc:tok-ready")
     tags.add("mode:cyc")
-    return Case(CY.cfg_ints(), inputs, outputs, fails, sorted(tags), d, CY.NAMES_IN, CY.NAMES_OUT)
+    ni, no = CY.names(h)
+    for kind, num, _ in h.slots:
+        tags.add("cyc:slot-%s" % ("ctl", "in", "out")[kind])
+    return Case(CY.cfg_ints(h), inputs, outputs, fails, sorted(tags), d, ni, no)
 
 
 def run_case(desc):
